@@ -68,7 +68,18 @@ type state struct {
 	Ready    []int       `json:"ready"`
 	Uploaded []int       `json:"uploaded"`
 	Requests []reqRec    `json:"requests"`
+	Proc     procRec     `json:"proc"`
 }
+
+// procRec is the long-running process as the specification sees it.
+type procRec struct {
+	St string `json:"st"` // none | open | disabled
+	P  string `json:"p"`
+	B  int    `json:"b"`
+	E  int    `json:"e"`
+}
+
+var noProc = procRec{St: "none", B: -1, E: -1}
 
 func countFileName(p string, b int) string {
 	return fmt.Sprintf("%s@%s-%s-%s-%s-%s.v1.count", p, progVer, goVers, runtime.GOOS, runtime.GOARCH, vm.DateOf(b))
@@ -490,7 +501,95 @@ func collectInProcess(dir, prog string, now time.Time) (errText string) {
 	return ""
 }
 
+// longProc is ONE long-running counting process: a private counter file that
+// stays open across the steps of a scenario (opened and rotated with
+// rotate1, as Open and the rotation timer do, with CounterTime mocked).
+type longProc struct {
+	f     counter.VFile
+	c     *counter.Counter
+	spans map[string][2]int // counter file path -> begin, end (real days)
+}
+
+func (lp *longProc) with(dir string, now time.Time, fn func()) (errText string) {
+	collectMu.Lock()
+	defer collectMu.Unlock()
+	defer func() {
+		if r := recover(); r != nil {
+			errText = fmt.Sprint("panic: ", r)
+		}
+	}()
+	oldDefault, oldTime := telemetry.Default, counter.CounterTime
+	defer func() { telemetry.Default, counter.CounterTime = oldDefault, oldTime }()
+	telemetry.Default = telemetry.NewDir(dir)
+	counter.CounterTime = func() time.Time { return now }
+	fn()
+	return ""
+}
+
+func (lp *longProc) init(prog string) {
+	if lp.c == nil {
+		lp.spans = map[string][2]int{}
+		lp.f.SetBuildInfo(&debug.BuildInfo{Path: "example.com/" + prog, GoVersion: goVers, Main: debug.Module{Path: "example.com", Version: progVer}})
+		lp.c = lp.f.New("c02")
+	}
+}
+
+// rotate: the rotation (or first opening) of the counter file, then one increment.
+func (lp *longProc) rotate(dir, prog string, now time.Time) string {
+	lp.init(prog)
+	return lp.with(dir, now, func() {
+		lp.f.Rotate1()
+		if name := lp.f.CurrentName(); name != "" {
+			if _, ok := lp.spans[name]; !ok {
+				if data, err := os.ReadFile(name); err == nil {
+					d := rt.DecodeV1(data)
+					b, err1 := time.Parse(time.RFC3339, d.Meta["TimeBegin"])
+					en, err2 := time.Parse(time.RFC3339, d.Meta["TimeEnd"])
+					if err1 == nil && err2 == nil {
+						lp.spans[name] = [2]int{int(b.Unix() / 86400), int(en.Unix() / 86400)}
+					}
+				}
+			}
+		}
+		lp.c.Inc()
+	})
+}
+
+func (lp *longProc) inc(dir, prog string, now time.Time) string {
+	lp.init(prog)
+	return lp.with(dir, now, func() { lp.c.Inc() })
+}
+
+// observe: what the process holds, in real day numbers.
+func (lp *longProc) observe(prog string) procRec {
+	if lp.c == nil {
+		return noProc
+	}
+	if lp.f.HasCurrent() {
+		sp, ok := lp.spans[lp.f.CurrentName()]
+		if !ok {
+			return procRec{St: "open", P: "?", B: -1, E: -1}
+		}
+		return procRec{St: "open", P: prog, B: sp[0], E: sp[1]}
+	}
+	if lp.f.Err() != nil {
+		return procRec{St: "disabled", B: -1, E: -1}
+	}
+	return noProc
+}
+
+func (lp *longProc) close() {
+	if lp.c != nil {
+		collectMu.Lock()
+		lp.f.Close()
+		collectMu.Unlock()
+	}
+}
+
 func (e *env) runScenario(sc *scenario) {
+	var lp longProc
+	lpProg := "lp"
+	defer lp.close()
 	dir := filepath.Join(e.root, fmt.Sprintf("s%d", sc.ID))
 	prefix := fmt.Sprintf("s%d", sc.ID)
 	sh := sc.Shift
@@ -571,6 +670,7 @@ func (e *env) runScenario(sc *scenario) {
 		}
 		pre := observe()
 		intentS := intent
+		procS := lp.observe(lpProg)
 		_, _, _, _, extraS := project(dir, e.self)
 		snapS := vm.Snapshot(dir)
 		errText := ""
@@ -608,6 +708,11 @@ func (e *env) runScenario(sc *scenario) {
 			} else {
 				errText = collectInProcess(dir, a.A, vm.At(day, tod))
 			}
+		case "protate":
+			lpProg = a.A
+			errText = lp.rotate(dir, a.A, vm.At(day, tod))
+		case "pinc":
+			errText = lp.inc(dir, lpProg, vm.At(day, tod))
 		case "set":
 			err := telemetry.NewDir(dir).SetModeAsOf(padded(a.A, a.P), vm.At(a.N1+sh, (sc.Variant*7919+i*131)%86400))
 			okGot = err == nil
@@ -628,6 +733,14 @@ func (e *env) runScenario(sc *scenario) {
 		act.A = vm.SafeWord(a.A)
 		us, ut := unshift(pre), unshift(post)
 		us.Intent, ut.Intent = intentS, intent
+		unproc := func(p procRec) procRec {
+			if p.B >= 0 {
+				p.B -= sc.Shift
+				p.E -= sc.Shift
+			}
+			return p
+		}
+		us.Proc, ut.Proc = unproc(procS), unproc(lp.observe(lpProg))
 		rec := rt.M{"kind": "obs", "src": sc.Src, "id": sc.ID, "step": i, "w": sc.W, "run": nrun, "shift": sc.Shift,
 			"a": act, "s": us, "t": ut,
 			"same": rt.M{"data": same, "mode": sameMode(snapS, snapT)}, "what": what,
@@ -821,6 +934,36 @@ func randomScenarios(n int, idBase int) []scenario {
 					step{Act: action{Op: "advance"}, Day: st.Day + 8 + rng.Intn(14), Tod: rng.Intn(86400)},
 					step{Act: action{Op: "run", N1: rng.Intn(1024), N2: rate, Ok: true}})
 			}
+		case 2:
+			// one long-running process: open, mode changes, rotations past the recorded end
+			if mf.K == "unreadable" {
+				mf = vm.ModeFile{K: "absent", D: vm.NoDate}
+				sc.Init.ModeFile = mf
+			}
+			d := st.Day
+			adv := func(n int) step {
+				d += n
+				return step{Act: action{Op: "advance"}, Day: d, Tod: rng.Intn(86400)}
+			}
+			set := func(m string) step { return step{Act: action{Op: "set", A: m, N1: d - rng.Intn(3), Ok: true}} }
+			rot := step{Act: action{Op: "protate", A: "lp", Ok: true}}
+			inc := step{Act: action{Op: "pinc", A: "lp", Ok: true}}
+			sc.Steps = nil
+			if rng.Intn(3) > 0 {
+				sc.Steps = append(sc.Steps, set([]string{"on", "local", "local"}[rng.Intn(3)]))
+			}
+			sc.Steps = append(sc.Steps, rot)
+			if (mf.K != "text" || mf.W != "off") || len(sc.Steps) > 1 {
+				sc.Steps = append(sc.Steps, inc) // the file is held and the mode is not off
+			}
+			if rng.Intn(4) > 0 {
+				sc.Steps = append(sc.Steps, set("off"))
+			}
+			sc.Steps = append(sc.Steps, adv(1+rng.Intn(10)), rot, inc)
+			if rng.Intn(2) == 0 {
+				sc.Steps = append(sc.Steps, set([]string{"on", "local"}[rng.Intn(2)]), adv(1+rng.Intn(9)), rot, inc)
+			}
+			sc.Steps = append(sc.Steps, adv(8), step{Act: action{Op: "run", N1: x, N2: rate, Ok: true}})
 		case 1:
 			sc.Child = rng.Intn(3) == 0
 			sc.Steps = []step{{Act: action{Op: "collect", A: []string{"c1", "c2"}[rng.Intn(2)], Ok: true}}}
